@@ -302,12 +302,18 @@ async fn one_config(a: Args, idx: usize, proto: Proto, transport: Transport, use
     let mut resumed_problems: Vec<String> = Vec::new();
     let mut client_released_at: Option<u64> = None;
     let mut a_resumed_sample: Option<Sample> = None;
+    // seconds at which this very loop was held up for more than 6 s (the machine, not the nodes)
+    let mut stalls: Vec<(u64, u64)> = Vec::new();
     loop {
         let now = t0.elapsed().as_secs();
         if now >= end_s {
             break;
         }
+        let before_sleep = Instant::now();
         tokio::time::sleep_until(tokio::time::Instant::from_std(at(now + 1))).await;
+        if before_sleep.elapsed() > Duration::from_secs(6) {
+            stalls.push((now, before_sleep.elapsed().as_secs()));
+        }
         let u = usage(&pair);
         series.push(u);
         let now = u.t;
@@ -443,6 +449,9 @@ async fn one_config(a: Args, idx: usize, proto: Proto, transport: Transport, use
         }
     }
     rep.extra.insert(format!("idle:{cfgname}:descriptors [t, server udp, server tcp, client udp, client tcp]"), json!(series_json));
+    if !stalls.is_empty() {
+        rep.note(format!("{cfgname}: the harness itself was held up (second, for seconds): {:?}", stalls));
+    }
     rep.case(&(idx, "idle", long), true);
     for (who, node) in [("client", &mut pair.client), ("server", &mut pair.server)] {
         for p in node.panics() {
@@ -479,19 +488,47 @@ pub async fn run(a: &Args) -> Report {
         (Proto::Trojan, Transport::Wss, 0),
         (Proto::Trojan, Transport::Quic, 0),
     ];
+    // only the signatures of the property this step was asked for
+    let prefix = format!("{}|", sub.to_uppercase());
     let mut hs = Vec::new();
-    for (idx, (p, t, u)) in cfgs.into_iter().enumerate() {
+    for (idx, (p, t, u)) in cfgs.iter().cloned().enumerate() {
         let a = a.clone();
         hs.push(tokio::spawn(async move { one_config(a, idx, p, t, u, long).await }));
     }
     let mut all = Report::new();
-    for h in hs {
-        if let Ok(r) = h.await {
-            all.merge(r);
+    let mut suspects: Vec<(usize, Report)> = Vec::new();
+    for (idx, h) in hs.into_iter().enumerate() {
+        if let Ok(mut r) = h.await {
+            r.violations.retain(|k, _| k.starts_with(&prefix));
+            if r.violations.is_empty() {
+                all.merge(r);
+            } else {
+                suspects.push((idx, r));
+            }
         }
     }
-    // only the signatures of the property this step was asked for
-    let prefix = format!("{}|", sub.to_uppercase());
-    all.violations.retain(|k, _| k.starts_with(&prefix));
+    // DESIGN section 5: a witness against running nodes is executed once more before it is believed. Minutes of real time
+    // are long enough for the machine itself to hiccup (a frozen or throttled virtual machine lets every QUIC connection
+    // run into its idle timer at once): a configuration that showed a symptom lives through the whole timeline again, alone;
+    // only a symptom that comes back is a violation, the rest is inconclusive.
+    let mut again = Vec::new();
+    for (idx, _) in suspects.iter() {
+        let (p, t, u) = cfgs[*idx];
+        let a = a.clone();
+        let idx = *idx;
+        again.push(tokio::spawn(async move { one_config(a, idx + 100, p, t, u, long).await }));
+    }
+    for ((_, mut r), h) in suspects.into_iter().zip(again) {
+        let second = h.await.unwrap_or_default();
+        all.mon("configurations_that_lived_through_the_timeline_a_second_time", 1);
+        let sigs: Vec<String> = r.violations.keys().cloned().collect();
+        for sig in sigs {
+            if !second.violations.contains_key(&sig) {
+                r.violations.remove(&sig);
+                all.inconclusive(format!("seen once, not reproduced when the configuration lived through the timeline again: {sig}"));
+            }
+        }
+        all.merge(r);
+    }
     all
 }
